@@ -346,7 +346,7 @@ def airTransmitToOtherEnabled : Bool := true
 `None` when the destination is the default gateway itself (repair F-57); else the gateway's interface from ARP -/
 def gatewayNotViaGateway : Bool := {"true" if gw_guard else "false"}
 /-- Firewall._process_dmz_outbound_frame: `if frame.is_broadcast: return` is the first statement after the hand-over test, before
-`get_arp_cache_network_interface` / `find_best_route` (repair F-58) -/
+`get_arp_cache_network_interface` / `find_best_route` (repair F-C08-r3-1) -/
 def dmzOutboundDropsBroadcastFirst : Bool := {"true" if dmz_guard else "false"}
 /-- a router resolves its outbound interface without ARP: base `ARP.get_default_gateway_network_interface` is `return None`, RouterARP
 does not override it (nor send_arp_request / send_arp_reply), RouterSessionManager.resolve_outbound_network_interface calls only
